@@ -393,6 +393,16 @@ def c13_7(ctx, r):
         raise AnalysisError("C13.7", f"_get_jobs_to_resubmit flags are {flags}")
     want = {"canceled": "failed", "failed": "failed", "successful": "successful"}
     seen = set()
+    # the selection is read from the completion summary (results.json), which resubmit-jobs never rewrites - not from processed_results.csv,
+    # which the same command prunes before the cluster is reset: a retry after a failure in between must select the same jobs again
+    live = [s_ for s_ in ctx.cg.sites_in(fn) if any(t.endswith(("ResultsAggregator.list_results", "ResultsAggregator.get_results", "ResultsAggregator.get_results_unsafe")) for t in s_.targets())]
+    summ = [c for c in ast.walk(fn.node) if isinstance(c, ast.Call) and ctx.src(c.func) == "ResultsSummary"]
+    r.check(bool(summ) and not live, "the jobs to rerun are chosen from the completion summary, which the command leaves untouched", key_of(fn, "selection source"), fn.loc(live[0].node) if live else fn.loc(),
+            "_get_jobs_to_resubmit reads the live results file (" + (ctx.src(live[0].node)[:70] if live else "no ResultsSummary") + "): resubmit-jobs prunes that file before it resets the cluster, so when the command fails in "
+            "between and is repeated, the pruned jobs are no longer 'failed' there - the retry selects nothing, the submission completes again and those jobs were never rerun",
+            "a failure of the command never leaves the submission with results erased and no way forward")
+    if live:
+        return
     for n in cfg.nodes:
         a = n.ast
         if n.kind != "stmt" or not isinstance(a, (ast.AugAssign, ast.Expr, ast.Assign)):
